@@ -347,7 +347,11 @@ def build_matcharm(spec: dict, sections: dict, log: list, twin: bool = False):
     rty = f" -> ({spec.get('ret', 'r')}: {spec['rtype']})" if spec.get('rtype') else ''
     head = f"pub fn {name}({spec['params']}){rty}\n{contract.rstrip()}\n"
     line0 = it.line_of(toks[j].start)
-    if spec.get('wrap_ok') == 'yes':
+    if spec.get('wrap_some') == 'yes':
+        # same for an enclosing function that returns Option and an arm that leaves through `return None` / `?`
+        text = head + '{ let __v = ' + body + ';\n  Some(__v) }\n'
+        applied.append(f"matcharm {relfile}:{line0}: arm value wrapped as `{{ let __v = BLOCK; Some(__v) }}` (the arm contains `return None`)")
+    elif spec.get('wrap_ok') == 'yes':
         # the arm's block is an expression of the enclosing function's Ok type and may leave through `?`:
         # `{ let __v = BLOCK; Ok(__v) }` gives the wrapper the enclosing function's Result type
         text = head + '{ let __v = ' + body + ';\n  Ok(__v) }\n'
